@@ -72,7 +72,9 @@ def cases(draw):
             "proxy_headers": proxy_headers, "body": body, "reply": reply, "method": draw(st.sampled_from(["GET", "POST", "PUT"])),
             "ext_target": draw(st.sampled_from([None, None, None, None, b"*"])),
             "target": draw(st.sampled_from(["/", "/t/x0?q=1", "/a;p=1/b"])), "sync": draw(st.booleans()),
-            "second": draw(st.booleans()), "resend_object": draw(st.booleans())}
+            "second": draw(st.booleans()), "resend_object": draw(st.booleans()),
+            # the sni_hostname extension names the TLS server name only: the proxy hop (CONNECT target, SOCKS command) still names the origin
+            "sni": draw(st.sampled_from([None, None, None, "front.sni.example"]))}
 
 
 MARK_PROXY = (b"PXH", b"PXU", b"PXP")
@@ -100,7 +102,7 @@ def execute(case) -> Outcome:
     body = case["body"]
     if case["method"] == "GET":
         body = None
-    spec = {"method": case["method"], "url": url, "headers": hdrs, "content": body, "ext_target": case["ext_target"]}
+    spec = {"method": case["method"], "url": url, "headers": hdrs, "content": body, "ext_target": case["ext_target"], "sni": case.get("sni")}
     spec2 = {"method": "GET", "url": f"{scheme}://{host}" + (f":{port}" if port is not None else "") + "/t/c1", "headers": [["x-tok", "c1"], ["X-Second", "CLH-second"]]}
     outs = []
     # one hand-made Request OBJECT sent twice (a caller that retries): both transmissions must look the same on the proxy hop
